@@ -93,6 +93,16 @@ def arr_strs(parsed, ref):
 
 
 # --------------------------------------------------------------------------- oracle
+def integral_base_name(fd, form_index, itg_index, prefix):
+    """Name stem of the objects generated for integral_data[itg_index] (needed only to LINK descriptor entries to kernels; the
+    scheme is FFCx's: the tag carries the integral's position when the form integrates over several meshes)."""
+    from ffcx import naming
+
+    itg = fd.integral_data[itg_index]
+    multi = any(d.domain != fd.integral_data[0].domain for d in fd.integral_data)
+    return naming.integral_name(fd.original_form, itg.integral_type, form_index, (itg.subdomain_id, itg_index) if multi else itg.subdomain_id, prefix)
+
+
 def expected_form(fd, form_index, prefix, object_names, part, kernels_of):
     """What ufcx.h and the property say the descriptor of this form must contain.
 
@@ -116,7 +126,7 @@ def expected_form(fd, form_index, prefix, object_names, part, kernels_of):
     # (type, id) -> multiset of kernels
     per_type = {t: [] for t in ITG_TYPES}
     for itg_index, itg in enumerate(fd.integral_data):
-        name = naming.integral_name(fd.original_form, itg.integral_type, form_index, itg.subdomain_id, prefix)
+        name = integral_base_name(fd, form_index, itg_index, prefix)
         for sid in itg.subdomain_id:
             i = -1 if sid == "otherwise" else int(sid)
             for dom in kernels_of(name):
@@ -190,8 +200,8 @@ def check_integral_objects(parsed, analysis, prefix, options, report, tag):
 
     sname = np.dtype(options["scalar_type"]).name
     for fi, fd in enumerate(analysis.form_data):
-        for itg in fd.integral_data:
-            base = naming.integral_name(fd.original_form, itg.integral_type, fi, itg.subdomain_id, prefix)
+        for itg_index, itg in enumerate(fd.integral_data):
+            base = integral_base_name(fd, fi, itg_index, prefix)
             objs = [n for n, s in parsed["structs"].items() if s["kind"] == "integral" and n.startswith(base + "_")]
             report(f"{tag}: integral {itg.integral_type}{itg.subdomain_id}: at least one kernel object generated", bool(objs),
                    dict(base=base[-12:]))
